@@ -78,10 +78,11 @@ def make_doc(seed: int, prop: str) -> tuple[dict, dict]:
         if cands:
             p_, m_ = cands[r.randrange(len(cands))]
             first = doc["paths"][p_][m_]
-            first["tags"] = ["alpha-tag"]
+            multi = r.random() < 0.5  # (several tags each: with generate_all_tags every one of them gets its own copy of the module)
+            first["tags"] = ["alpha-tag", "gamma_t"] if multi else ["alpha-tag"]
             tok = first["operationId"][3:]
             doc["paths"][f"/clash{tok}"] = {r.choice(["get", "post", "delete"]): {
-                "operationId": "op" + tok.capitalize(), "tags": ["Beta"],
+                "operationId": "op" + tok.capitalize(), "tags": ["Beta", "delta_t"] if multi else ["Beta"],
                 "parameters": [{"name": "clash_q", "in": "query", "required": True, "schema": {"type": "string"}}],
                 "responses": {"200": {"description": "ok"}}}}
     return doc, cfg
@@ -242,6 +243,9 @@ def build_spec(seed: int, prop: str, tier: str) -> dict:
                 twin["variant"] = r.choice(["detailed", "plain"])
                 twin["twin_of"] = src["cid"]
                 twin["cid"] = c._next()
+                # a retry: the caller passes the very same argument OBJECTS again (the same File with its half-read stream, the
+                # same model instances) instead of building equal ones
+                twin["reuse_args"] = r.random() < 0.5
                 if twin["server"].get("fault") == "cancel":
                     twin["server"]["fault"] = None
                     src["server"]["fault"] = None
@@ -463,8 +467,17 @@ class World:
             return None
         self.next_call += 1
         cid = self.next_call
-        return {"id": cid, "op": op, "opid": opid, "mod": mod, "variant": variant, "kwargs": kwargs, "pargs": pargs, "exp_body": exp_body,
-                "call": call, "build_err": build_err, "sess": sess_i}
+        first = getattr(self, "_prep_by_cid", {}).get((sess_i, call.get("twin_of")))
+        if call.get("reuse_args") and first is not None and sorted(first["kwargs"]) == sorted(kwargs) and not (exp_body is not None and exp_body[1] == "octet"):
+            # (a raw application/octet-stream body IS the stream: once sent it is consumed, which is the caller's business)
+            kwargs = first["kwargs"]
+            self.probe("twin-reuses-argument-objects")
+        out = {"id": cid, "op": op, "opid": opid, "mod": mod, "variant": variant, "kwargs": kwargs, "pargs": pargs, "exp_body": exp_body,
+               "call": call, "build_err": build_err, "sess": sess_i}
+        if not hasattr(self, "_prep_by_cid"):
+            self._prep_by_cid = {}
+        self._prep_by_cid[(sess_i, call.get("cid"))] = out
+        return out
 
     def behaviour(self, prep: dict) -> dict:
         b = dict(prep["call"]["server"])
